@@ -13,7 +13,7 @@ NA = {
 }
 TECH = {
  'C01': 'static analysis: constant-table lint (sortedness under the search comparator, XSLT 1.0 vocabulary), producer/consumer switch exhaustiveness, finite-domain interpretation of the xsl:element namespace fix-up and of literal-result namespace processing; frozen protocol table of the dynamic context each instruction establishes (who-may-call on the scope stacks, CFG must-pass-through); parameter-binding rule; interpretation of the attribute-value-template constructor on all short strings and of the variables stack on instruction-shaped scripts (scoping laws)',
- 'C02': 'static analysis: keyword-table lint, op-code producer-subset-of-consumer over the call graph, finite-domain interpretation of the comparison dispatch and of the IEEE arithmetic primitives, grammar-recursion rule, position-cache coherence over the CFG; interpretation of substring(), of the node-set comparison kernels and of the string functions together with the DOMStringHelper routines they call, on all small inputs; interpretation of the tokenizer on all short strings and of the recursive-descent expression parser on bounded token sequences, against a reference XPath 1.0 lexer and recognizer; interpretation of the string-to-number validation on all short strings and of the twelve axis functions on all context nodes of small abstract trees; end-to-end interpretation of location paths (compile to a real op-code map, XPath::step, literal position predicates) against a reference evaluator',
+ 'C02': 'static analysis: keyword-table lint, op-code producer-subset-of-consumer over the call graph, finite-domain interpretation of the comparison dispatch and of the IEEE arithmetic primitives, grammar-recursion rule, position-cache coherence over the CFG; interpretation of substring(), of the node-set comparison kernels and of the string functions together with the DOMStringHelper routines they call, on all small inputs; interpretation of the tokenizer on all short strings and of the recursive-descent expression parser on bounded token sequences, against a reference XPath 1.0 lexer and recognizer; interpretation of the string-to-number validation on all short strings and of the twelve axis functions on all context nodes of small abstract trees; end-to-end interpretation of location paths (compile to a real op-code map, XPath::step, literal position predicates) and of whole expressions (operators, op-coded functions, expression predicates, filter expressions through XPath::executeMore and XPath::predicates) against a reference evaluator',
  'C03': 'static analysis: interprocedural exception-escape fixpoint, sibling handler agreement, format-string buffer bounds, guarded float-to-int casts and integer divisions, CFG must-pass-through rules; emptied-by-reset rule for members holding handles into the per-transformation object factory',
  'C04': 'static analysis: constant-table lint + finite-domain interpretation of predicate ASTs, of the escape functions and of the CDATA sectioning code, CFG guard accounting for buffer stores, template-instantiation consistency; interpretation of the output stream (buffer, flush, transcoding retry loop) against a model transcoder on all bounded write sequences; interpretation of the UTF-16 byte-order choice for both byte orders; interpretation of the comment / processing-instruction content fix-ups on all short strings',
  'C06': 'static analysis: write-set (effect) analysis over the CHA call graph versus the reset closure; CFG dominance of the reset guard',
@@ -21,7 +21,7 @@ TECH = {
  'C08': 'static analysis: template-argument comparison of serializer instantiations, who-may-call, HTML element table lint, bounded interpretation of the indenting serializer\'s event handlers over all event sequences (abstract output tokens), of the HTML serializer likewise, and of the text formatter on all short strings',
  'C09': 'static analysis: pattern op-code producers versus stepPattern/getTargetData switch labels; single NodeTester rule; CFG loop-exit rule for the ancestor search; type-split rule for number-valued predicates on both sides; step-type value sets reaching the node tester; kind guards of pattern steps; interpretation of the pattern parser on bounded token sequences against a reference recognizer for the XSLT 1.0 pattern grammar; end-to-end interpretation of pattern compilation (real op-code map) and matching (stepPattern, NodeTester) on abstract trees against the definition of XSLT 1.0 5.2',
  'C10': 'static analysis: exhaustive switch evaluation of match-score constants; finite-domain interpretation of getTargetData and of the lookup-list builders on all small inputs; structural agreement of the two findTemplate branches; interpretation of the construction of the built-in rules over an object model of stylesheet elements',
- 'C11': 'static analysis: sibling dispatch agreement across the six executeMore switches (labels, kernels, canonical conversions); append protocol of the string-result overloads; wrapper rule for the typed helper families; body equality modulo the sink for the 50 string / character-events overload pairs of the conversion library',
+ 'C11': 'static analysis: sibling dispatch agreement across the six executeMore switches (labels, kernels, canonical conversions); append protocol of the string-result overloads; wrapper rule for the typed helper families; body equality modulo the sink for the 50 string / character-events overload pairs of the conversion library; interpretation of the generic and the four typed executeMore overloads on a corpus of compiled expressions, typed answers compared with the conversions of the generic result',
  'C12': 'static analysis: CFG must-pass-through of the order flag in axis functions; who-may-call for raw addNode; dominating-justification rule for whole-range transfers in the ordered merge; interpretation of the ordered insert (binary and linear search, predicates) on all bounded insertion sequences over two documents, and of the structural document-order comparison on all node pairs of small trees',
  'C13': 'static analysis: who-may-call for strip-unaware text access; CFG guard dominance of text sinks; interpretation of the declaration ordering; return-value provenance of the strip decision chain; pattern step verdicts only from NodeTester',
  'C16': 'static analysis: stable_sort call rule + finite-domain interpretation of the key comparator of the per-(key, node) value caches and of a whole sort end to end (scratch vector, comparator object, copy back) against the XSLT 1.0 ordering; scope and re-entrancy rules for the sorter',
